@@ -1383,7 +1383,13 @@ class ParsedEpytextDocstring(ParsedDocstring):
         self._document = new_document('epytext')
 
         if self._tree is not None:
-            node, = self._to_node(self._tree)
+            try:
+                node, = self._to_node(self._tree)
+            except Exception:
+                # Do not keep a half-built document: the failure must show again
+                # (and be reported) when the docstring itself is rendered.
+                self._document = None
+                raise
             # The contents is encapsulated inside a section node. 
             # Reparent the contents of the second level to the root level. 
             self._document = set_node_attributes(self._document, children=node.children)
